@@ -838,6 +838,9 @@ func (e *Engine) throughHelpers(direct func(ssa.CallInstruction) bool) func(ssa.
 		if _, isGo := in.(*ssa.Go); isGo {
 			return false
 		}
+		if _, isDefer := in.(*ssa.Defer); isDefer {
+			return false // runs at function exit, not here
+		}
 		if direct(c) {
 			return true
 		}
